@@ -164,7 +164,7 @@ def _raise_conditions(cx):
     return out
 
 
-def _cond_true(conds, pred):
+def _cond_true(conds, pred, cx=None, ev=None):
     """some guard in force at the raise satisfies pred(test, polarity) -- and it is the *deciding* one: every other
     guard in force is the negation of an earlier refusal (polarity False), so the raise is reached whenever the
     documented condition holds and no earlier refusal fired"""
@@ -172,7 +172,17 @@ def _cond_true(conds, pred):
     if not hits:
         return False
     others = [g for g in conds if g not in hits]
-    return all(g[1] is False for g in others)
+    if not all(g[1] is False for g in others):
+        return False
+    if cx is not None and ev is not None:
+        # ... of an earlier *refusal*: a condition whose positive side merely returns early (a memo of values that passed
+        # before, a shortcut) lets the documented refusal be skipped
+        for g in others:
+            pos = [r for r in cx.events if r.kind == "raise" and r.seq < ev.seq and any(
+                facts.canon_guard((h[0], h[1])) == facts.canon_guard((g[0], True)) for h in r.guards)]
+            if not pos:
+                return False
+    return True
 
 
 def _is_disjunct_ok(g):
@@ -222,7 +232,7 @@ def refusal(cx, kind, param, extra=None, model=None):
     pred = {"not_in_table": not_in_table, "in_list": in_list, "startswith_slash": startswith_slash, "falsy": falsy,
             "not_isinstance": not_isinstance, "not_contains": not_contains}[kind]
     for conds, ev in rc:
-        if _cond_true(conds, pred):
+        if _cond_true(conds, pred, cx, ev):
             return ev
     return None
 
